@@ -129,6 +129,11 @@ PROPS: dict[str, dict[str, Any]] = {
         "assumptions": ["the exit status of the whole run is pytest's (wrap_session); the check looks at the summary line DSession records and at the published crash reports",
                         "the theorems are about the DSession model for an arbitrary scheduler; T2 replays every simulated run's controller events through that model"],
     },
+    "C11": {
+        "components": [system(["stop", "collecterr", "stop"], 450, 9000)],
+        "assumptions": ["pytest's own per-worker --maxfail counting and the mapping of Interrupted to exit status 2 (wrap_session) are pytest's; the simulated workers follow them",
+                        "a receiver thread flipping _down in the middle of a handler of the main loop is not exhibited by the simulation"],
+    },
     "C12": {
         "components": [system(["plain", "crash", "budget"], 300, 6000), e2e("identity")],
         "assumptions": ["os.environ, fixtures and tmp_path_factory inside workers are observed in real runs (T3), not modelled",
